@@ -12,7 +12,9 @@
          * ``tree_redaction_any_keys`` — regex replaced by the contract "search(k) is truthy iff k
            is a sensitive key" (justified by (a)); keys are arbitrary strings; tree = symbolic
            caterpillar tree of dict/list nodes, depth <= 3, 2 children per node;
-         * ``failing_redactor_drops_claims`` — a redactor raising any Exception => no claims.
+         * ``failing_redactor_drops_claims`` — a redactor raising any Exception => no claims;
+         * ``failing_redactor_history`` — one installation, 1..3 records, the redactor raises on any subset of
+           them: every record it raised on carries no claims, the others no sensitive value.
          Asserted: no sentinel leaf below a sensitive key at any depth is reachable in what is
          handed to the access logger; the sensitive key itself is still present with REDACTED.
 """
@@ -39,7 +41,8 @@ BOUNDS = (
     "xh words: 19 names x {lower, UPPER, Title} x {top level, 5 nested position kinds}; "
     "xh tree: caterpillar trees (every node has 2 children, at most one of them a container, container position "
     "symbolic) of dict/list nodes, depth <= %d, sensitive key = any string len<=2 at any dict level on the spine or "
-    "on the sibling leaf" % pick(3, 4)
+    "on the sibling leaf; xh redactor history: one installation, 1..%d records, raising on any subset of them"
+    % (pick(3, 4), pick(3, 4))
 )
 OUTSIDE = (
     "trees where both children of a node are containers; claim values that are not str/dict/list; keys that merely "
@@ -371,10 +374,11 @@ def _plain(obj: object) -> object:
     return obj
 
 
-def _http_ping_lines(claims: object, redactor: object = None) -> tuple[object, list[str]]:
-    """Un-stubbed: real HTTP app (falcon test client), an authenticator returning the claims, one unary call,
-    the vgi_rpc.access records formatted by the real VgiAccessLogFormatter.  Returns (call result | exception, the
-    JSON lines of the ``ping`` records)."""
+def _http_ping_history(claims: object, redactor: object = None, n_calls: int = 1, before_call: object = None) -> tuple[list, list[list[str]]]:
+    """Un-stubbed: real HTTP app (falcon test client), an authenticator returning the claims, *n_calls* unary calls
+    made one after the other under ONE installation of *redactor* (``before_call(i)`` runs before the i-th), the
+    vgi_rpc.access records formatted by the real VgiAccessLogFormatter.  Returns (per call: result | exception,
+    per call: the JSON lines of the ``ping`` records written during that call)."""
     import warnings
     from typing import Protocol
 
@@ -405,24 +409,36 @@ def _http_ping_lines(claims: object, redactor: object = None) -> tuple[object, l
     lg.addHandler(h)
     lg.setLevel(logging.INFO)
     saved_redactor = lu._claim_redactor
-    result: object = None
+    results: list = []
+    groups: list[list[str]] = []
     try:
         if redactor is not None:
             lu.set_claim_redactor(redactor)  # type: ignore[arg-type]
         with warnings.catch_warnings():
             warnings.simplefilter("ignore")
             client = make_sync_client(RpcServer(P, Impl()), authenticate=authenticate, token_key=b"k" * 32)
-            try:
-                with http_connect(P, client=client) as proxy:
-                    result = proxy.ping(n=1)
-            except Exception as e:  # noqa: BLE001
-                result = e
+            for i in range(n_calls):
+                start = len(lines)
+                if before_call is not None:
+                    before_call(i)  # type: ignore[operator]
+                try:
+                    with http_connect(P, client=client) as proxy:
+                        results.append(proxy.ping(n=1))
+                except Exception as e:  # noqa: BLE001
+                    results.append(e)
+                groups.append([ln for ln in lines[start:] if json.loads(ln).get("method") == "ping"])
     finally:
         lu.set_claim_redactor(saved_redactor)
         lg.removeHandler(h)
         lg.setLevel(old_level)
         logging.disable(old_disable)
-    return result, [ln for ln in lines if json.loads(ln).get("method") == "ping"]
+    return results, groups
+
+
+def _http_ping_lines(claims: object, redactor: object = None) -> tuple[object, list[str]]:
+    """One call through :func:`_http_ping_history`: (call result | exception, the JSON lines of its ``ping`` records)."""
+    results, groups = _http_ping_history(claims, redactor)
+    return results[0], groups[0]
 
 
 def _replay_http(args: dict) -> str | None:
@@ -598,16 +614,23 @@ def _make_boom(kind: int, reads_first: bool):
 
 
 def _replay_redactor(args: dict) -> str | None:
-    """Un-stubbed: the raising redactor installed through the public set_claim_redactor, one call through the real
-    HTTP app.  The call must still succeed, and its access-log line must carry no claim (absent or empty object)."""
+    """Un-stubbed: the raising redactor installed ONCE through the public set_claim_redactor, then as many calls
+    through the real HTTP app as the harness scenario applied the redaction (two: the direct application and the
+    logged record).  Every call must still succeed, and every access-log line must carry no claim (absent or empty
+    object)."""
     claims = _CLAIMS_BY_SIZE[args["n_claims"]]
-    result, lines = _http_ping_lines(claims, redactor=_make_boom(args["kind"], args["reads_first"]))
-    if isinstance(result, Exception):
-        return f"a raising claim redactor took the request down: {result!r}"
-    for line in lines:
-        rec = json.loads(line)
-        if _SECRET in line or _OTHER in line or rec.get("claims"):
-            return f"redactor raised, yet the access-log record carries claims: {json.dumps(rec.get('claims'))[:300]}"
+    results, groups = _http_ping_history(claims, redactor=_make_boom(args["kind"], args["reads_first"]), n_calls=2)
+    for i, result in enumerate(results):
+        if isinstance(result, Exception):
+            return f"a raising claim redactor took request #{i + 1} down: {result!r}"
+    for i, lines in enumerate(groups):
+        for line in lines:
+            rec = json.loads(line)
+            if _SECRET in line or _OTHER in line or rec.get("claims"):
+                return (
+                    f"redactor raised on every call, yet the access-log record of call #{i + 1} under that installation "
+                    f"carries claims: {json.dumps(rec.get('claims'))[:300]}"
+                )
     return None
 
 
@@ -635,3 +658,88 @@ def failing_redactor_drops_claims(kind: int, reads_first: bool, n_claims: int) -
     # the record is still written, and it carries no claims at all (key absent, or the empty object the spec's
     # truncation section uses for "claims dropped")
     return n == 1 and not out
+
+
+# ---------------------------------------------------------------------------
+# (b4) ... on EVERY record written while that redactor is installed (history of records)
+# ---------------------------------------------------------------------------
+
+_MAXR = pick(3, 4)
+_HIST_CLAIMS = [{"email": _SECRET}, {"email": _SECRET, "sub": _OTHER}]
+
+
+def _make_flaky(kind: int, state: dict):
+    """A custom redactor (the default policy, applied by hand) that raises on the calls for which the driver set
+    ``state['raise_now']`` and works on the others."""
+
+    def flaky(c: Mapping) -> dict:
+        if state["raise_now"]:
+            for i, exc_type in enumerate(_EXC_TYPES):  # concrete class per path
+                if i == kind:
+                    raise exc_type("redactor failed")
+            raise Exception("redactor failed")
+        return lu.redact_claims(c)
+
+    return flaky
+
+
+def _replay_history(args: dict) -> str | None:
+    """Un-stubbed: the flaky redactor installed ONCE through the public set_claim_redactor, n_records calls through
+    the real HTTP app, each judged on its own serialized access-log lines."""
+    fails = [bool(args.get(f"f{i}", False)) for i in range(4)]
+    n_records = args["n_records"]
+    state = {"raise_now": False}
+
+    def before_call(i: int) -> None:
+        state["raise_now"] = fails[i]
+
+    claims = _HIST_CLAIMS[args["n_claims"] - 1]
+    results, groups = _http_ping_history(claims, redactor=_make_flaky(args["kind"], state), n_calls=n_records, before_call=before_call)
+    pattern = "".join("F" if f else "." for f in fails[:n_records])
+    for i, result in enumerate(results):
+        if isinstance(result, Exception):
+            return f"request #{i + 1} of history {pattern} (F = redactor raises) was taken down: {result!r}"
+    for i, lines in enumerate(groups):
+        for line in lines:
+            rec = json.loads(line)
+            if _SECRET in line:
+                return f"history {pattern}: the access-log record of call #{i + 1} contains the value of claim 'email': {json.dumps(rec.get('claims'))[:300]}"
+            if fails[i] and (_OTHER in line or rec.get("claims")):
+                return (
+                    f"history {pattern} (F = the installed redactor raises): the redactor raised on call #{i + 1}, yet that "
+                    f"call's access-log record carries claims: {json.dumps(rec.get('claims'))[:300]}"
+                )
+    return None
+
+
+@cond(q=150, t=400, stubs=_STUBS_LOGGER, encoded=[lu.apply_claim_redaction, lu.set_claim_redactor, srv._emit_access_log],
+      bound="one installation of a custom redactor, then 1..%d records; the redactor raises (any of 7 Exception types) on an "
+            "arbitrary subset of them and applies the default policy on the others; claims with 1..2 entries" % _MAXR,
+      replay=_replay_history, signature=lambda args, conc: "C35:failing-redactor-claims-not-dropped-on-later-record")
+def failing_redactor_history(kind: int, n_claims: int, n_records: int, f0: bool, f1: bool, f2: bool, f3: bool) -> bool:
+    """
+    pre: 0 <= kind < 7 and 1 <= n_claims <= 2 and 1 <= n_records <= _MAXR
+    post: _
+    """
+    claims = _HIST_CLAIMS[n_claims - 1]
+    fails = [f0, f1, f2, f3]
+    state = {"raise_now": False}
+    saved = lu._claim_redactor
+    lu.set_claim_redactor(_make_flaky(kind, state))
+    try:
+        for i in range(n_records):
+            state["raise_now"] = fails[i]
+            try:
+                n, out = _logged_claims(claims)
+            except Exception:  # noqa: BLE001
+                return False  # "a redactor that raises must not take the request down with it"
+            if n != 1:
+                return False
+            if state["raise_now"]:
+                if out:  # the redactor raised for this record: no claims at all (absent or the empty object)
+                    return False
+            elif out is not None and _leaks(out, [_SECRET]):
+                return False  # the redactor worked: whatever is logged, never the value of a sensitive claim
+    finally:
+        lu.set_claim_redactor(saved)
+    return True
